@@ -223,8 +223,30 @@ def _branches(fn: ast.FunctionDef, token: str):
     """Bodies of `if/elif` branches of fn whose test mentions token."""
     out = []
     for node in ast.walk(fn):
-        if isinstance(node, ast.If) and token in norm(node.test, 400):
-            out.append(node)
+        if not (isinstance(node, ast.If) and token in norm(node.test, 400)):
+            continue
+        t = node.test
+        exits = bool(node.body) and isinstance(
+            node.body[-1], (ast.Continue, ast.Return, ast.Raise, ast.Break))
+        if isinstance(t, ast.Compare) and len(t.ops) == 1 and isinstance(
+                t.ops[0], (ast.NotEq, ast.IsNot)) and exits and \
+                not node.orelse:
+            # guard clause `if tag != X: continue` + rest of the block: the
+            # rest is the branch for X
+            par = getattr(node, "_parent", None)
+            for f in ("body", "orelse", "finalbody"):
+                lst = getattr(par, f, None)
+                if isinstance(lst, list) and any(x is node for x in lst):
+                    i = [k for k, x in enumerate(lst) if x is node][0]
+                    pos = ast.Compare(t.left, [ast.Eq()], t.comparators)
+                    syn = ast.If(test=pos, body=lst[i + 1:] or [ast.Pass()],
+                                 orelse=[])
+                    ast.copy_location(syn, node)
+                    ast.fix_missing_locations(syn)
+                    out.append(syn)
+                    break
+            continue
+        out.append(node)
     return out
 
 
